@@ -936,6 +936,19 @@ func txnIterHandlerFunc(
 			return false, nil
 		}
 
+		// Build-in transactions (payFees, generate_challenge, blobber_block_rewards,
+		// commit_settings_changes) are created by the generator itself. A transaction
+		// with such a function name submitted by a client must never be taken from the
+		// pool: the block would carry the build-in transaction twice and every honest
+		// verifier rejects it (ValidateTransactions, duplicated build-in transaction).
+		if mc.isBuildInTxn(txn) {
+			logging.Logger.Error("generate block - build-in transaction in the pool, removing",
+				zap.String("txn", txn.Hash),
+				zap.String("function_name", txn.FunctionName))
+			tii.invalidTxns = append(tii.invalidTxns, txn)
+			return true, nil
+		}
+
 		if txn.Value > config.MaxTokenSupply {
 			logging.Logger.Error("generate block, invalid transaction value",
 				zap.String("hash", txn.Hash),
